@@ -265,9 +265,24 @@ class PackedPointRecord:
 
 
 def apply_new_scaling(record, scales: np.ndarray, offsets: np.ndarray) -> None:
-    record["X"] = unscale_dimension(np.asarray(record.x), scales[0], offsets[0])
-    record["Y"] = unscale_dimension(np.asarray(record.y), scales[1], offsets[1])
-    record["Z"] = unscale_dimension(np.asarray(record.z), scales[2], offsets[2])
+    new_X = unscale_dimension(np.asarray(record.x), scales[0], offsets[0])
+    new_Y = unscale_dimension(np.asarray(record.y), scales[1], offsets[1])
+    new_Z = unscale_dimension(np.asarray(record.z), scales[2], offsets[2])
+
+    # Check before modifying anything: a value that does not fit
+    # would silently wrap when stored in the integer array
+    for name, new_values in (("X", new_X), ("Y", new_Y), ("Z", new_Z)):
+        info = np.iinfo(record.array[name].dtype)
+        if new_values.size != 0 and (
+            np.max(new_values) > info.max or np.min(new_values) < info.min
+        ):
+            raise OverflowError(
+                f"{name} values do not fit after applying the new offset and scale"
+            )
+
+    record["X"] = new_X
+    record["Y"] = new_Y
+    record["Z"] = new_Z
 
 
 class ScaleAwarePointRecord(PackedPointRecord):
